@@ -26,9 +26,20 @@ CLAIM = {
 }
 
 THEOREMS = [
-    "Okane.Query.C10_untouched", "Okane.Query.C10_linear", "Okane.Query.C10_amount_value", "Okane.Query.C10_amount_linear",
-    "Okane.Query.C10_fail_amount", "Okane.Query.C10_uptodate", "Okane.Query.C10_historical", "Okane.Query.C10_fail",
-    "Okane.Query.C10_fail_uptodate", "Okane.Query.C10_round_only_T", "Okane.Query.C10_no_conversion_unchanged",
+    "Okane.Query.C10_untouched",
+    "Okane.Query.C10_linear",
+    "Okane.Query.C10_fail_value_independent",
+    "Okane.Query.C10_amount_value",
+    "Okane.Query.C10_amount_total",
+    "Okane.Query.C10_fail_amount",
+    "Okane.Query.C10_amount_linear",
+    "Okane.Query.C10_no_conversion_unchanged",
+    "Okane.Query.C10_uptodate",
+    "Okane.Query.C10_uptodate_wf",
+    "Okane.Query.C10_historical",
+    "Okane.Query.C10_fail",
+    "Okane.Query.C10_fail_uptodate",
+    "Okane.Query.C10_round_only_T",
 ]
 
 F = Fraction
@@ -321,8 +332,8 @@ def run(chk):
     ]
     if not standard_prologue(chk, THEOREMS):
         return
-    n = 120 if chk.tier == "quick" else 3000
-    n_cli = 60 if chk.tier == "quick" else 600
+    n = 600 if chk.tier == "quick" else 15000
+    n_cli = 150 if chk.tier == "quick" else 2500
     cases = fixed_cases() + [gen_case(chk.rng, "r%d" % i) for i in range(n)]
     lines = [case_line(c) for c in cases]
     impl = run_sharded(HX, ["c10"], lines)
